@@ -53,10 +53,11 @@ CHECKS = {
              'by branch, the symbolic zero-filter a parameter): for every algebra, commutative ring and sparse operand - scalar denominators on '
              'both sides give a two-sided inverse, inverses are unique, a/b = a*b.inv(), number/x = number*x.inv(), ZeroDivisionError exactly '
              'when the generated denominator tests zero, power_supply yields x^k, the Shirokov pair satisfies x adj = adj x = den whenever the '
-             'loop stops by its break.  For d <= 4, every ascending-spelled basis (all default bases, every signature ordering), ALL operands, '
-             'the metric as ring indeterminates: x num = num x = den, den = 0 only for operands without inverse, hence x.inv() is a two-sided '
+             'loop stops by its break.  For d <= 4, EVERY well-formed algebra (default bases with any start index >= 0 directly, with the metric as ring '
+             'indeterminates; custom / non-ascending bases such as 2DPGA, 3DPGA by composition with the C14 relabelling isomorphism), ALL '
+             'operands: x num = num x = den, den = 0 only for operands without inverse, hence x.inv() is a two-sided '
              'inverse whenever it returns and over a field returns exactly for invertible operands.  NOT proved: the d = 5 closed form, that the '
-             'Shirokov loop reaches its break, singularity beyond d = 4, non-ascending custom spellings; there the check is the direct oracle on '
+             'Shirokov loop reaches its break, singularity beyond d = 4; there the check is the direct oracle on '
              'the implementation (exact over Fraction for d <= 5, to rounding beyond, exact linear-algebra singularity oracle on '
              'ZeroDivisionError) plus the in-Coq model tie - exploration, labelled so in the evidence.',
         technique='Rocq proof (coefficient reflection + ring with generic metric; staged proof via associativity for d = 4; loop invariant for Shirokov) + direct oracle + in-Coq differential correspondence',
